@@ -1,9 +1,10 @@
-SPECIFICATION Spec
+INIT GridInit
+NEXT GridNext
 CONSTANTS
   GridRows = 2
   MaxRows = 4
   Scrutinees <- AllScrut
-  PatDepth = 2
+  PatDepth = 1
   MinRows = 2
-INVARIANTS FirstMatchIsFirst WildcardLastIsTotal Emit
+INVARIANT Emit
 CHECK_DEADLOCK FALSE
